@@ -126,7 +126,15 @@ def _handle_job_set(function):
     def call(self, job_set=taskhandle.DEFAULT_JOB_SET):
         job_set.started_job(str(self))
         function(self)
-        job_set.finished_job()
+        try:
+            job_set.finished_job()
+        except exceptions.InterruptedTaskError:
+            # The change has been performed but its owner will not know:
+            # revert it so that an interrupted composite change can be
+            # rolled back completely.
+            inverse = "undo" if function.__name__ == "do" else "do"
+            getattr(self, inverse)()
+            raise
 
     return call
 
